@@ -92,6 +92,12 @@ def main() -> int:
         except Exception:  # noqa: BLE001
             broken.append("harness error in the extraction cross-check: " + traceback.format_exc()[-600:])
 
+    chk = None
+    if tier == "thorough" and thm["ok"]:
+        chk = B.coqchk(prop)
+        if not chk["ok"]:
+            broken.append(f"coqchk does not accept Properties/{prop}.vo without axioms or unchecked definitions: {chk}")
+
     known = [k for k in load_known() if k.get("property") == prop and k.get("status", "known") == "known"]
     known_by_id = {k["id"]: k for k in known}
 
@@ -153,6 +159,7 @@ def main() -> int:
             "disagreements": len(result["disagreements"]),
             "known_findings_hit": known_hits,
             "extraction_cross_check_in_coq": xcheck,
+            "coqchk_context_summary": (chk or {}).get("summary", "run in the thorough tier only"),
             "stats": result["stats"],
             "notes": result["notes"],
             "broken": broken,
